@@ -120,3 +120,10 @@ claimed["C10"] = (
     "a scope from UnserializeScope whose only unlinked references point to an EXTERNAL namespace is not exercised (linking those is the caller's job); quick enumerates 24 descriptions, thorough 900",
     "DESIGN.md §3 C10",
 )
+claimed["C11"] = (
+    "exploration",
+    "recording handlers + reference-interpreter oracle over generated plugins; controlled schedule exploration (yield-point overlay of schema/step.go and schema/schema.go with quiescence-driven release) and the Go race detector for the once-per-run initialisation",
+    "Generated plugins (1-3 steps, generated input / output / signal-data scopes, several outputs, several signal handlers, a token-issuing initialiser) are called through CallableSchema.CallStep / CallSignal with valid, alternately represented, perturbed, property-dropped and hostile inputs, existing and unknown step / signal IDs, and handlers returning declared+conforming, declared+non-conforming or undeclared outputs. An independent three-valued interpreter of the schema decides whether the handler must have run (exactly once, with exactly the denoted value) and which error class must come back. Then the step call and the signal calls of the same and of different run IDs are issued one after the other in shuffled orders, together from up to 16 goroutines, with every reached statement of schema/step.go / schema.go paused singly (overlay build), and under -race: initialiser calls == run IDs, one step-data object per run, none shared across runs, no deadlock (stop-the-world goroutine snapshot), no panic, no race report.",
+    "inputs whose acceptance the reference leaves unspecified only get the 'at most once' check; handler argument identity is judged on values (handlers take `any`); pauses are single, at statement granularity; the context value is how handler invocations are attributed to run IDs",
+    "DESIGN.md §3 C11",
+)
